@@ -91,7 +91,35 @@ def _cov_start():
 
 
 COV_ON = _cov_start()
+if os.environ.get("VERIF_CHILD_WARNINGS") == "error":
+    # child interpreters only: every warning is an error from here on (import of the library included)
+    warnings.resetwarnings()
+    warnings.simplefilter("error")
+    try:
+        from cryptography.utils import CryptographyDeprecationWarning as _CDW
+        warnings.filterwarnings("ignore", category=_CDW)
+    except Exception:  # noqa: BLE001
+        pass
+if os.environ.get("VERIF_CHILD_LOCALE"):
+    # child interpreters only: a numeric locale that groups digits (1,024), as a host application may have selected
+    import locale as _locale
+    try:
+        _locale.setlocale(_locale.LC_NUMERIC, os.environ["VERIF_CHILD_LOCALE"])
+    except _locale.Error:
+        pass
+if os.environ.get("VERIF_CHILD_IMPORTS") == "reverse":
+    # child interpreters only: the package's modules imported top-down (the one with most dependencies first), then a star import,
+    # after the entropy interposer is in place
+    import importlib as _importlib
+    for _m in ("tr31", "pinblock", "pin", "cvv", "mac", "des", "aes", "tools"):
+        _importlib.import_module("psec." + _m)
+    exec("from psec import *", {})
 import psec  # noqa: E402
+if os.environ.get("VERIF_CHILD_IMPORTS") == "reverse":
+    # ... and the helper modules reloaded in place afterwards (an auto-reloading development server does this)
+    import importlib as _importlib2
+    for _m in ("tools", "des", "aes", "mac"):
+        _importlib2.reload(sys.modules["psec." + _m])
 
 
 def coverage_report():
@@ -257,8 +285,12 @@ def outcome_class(e, stream):
     return "other:" + type(e).__name__
 
 
+_EXC_RING = []
+_SHARED_EXC = []
+
+
 class CallResult:
-    __slots__ = ("ok", "value", "err", "exc", "entropy", "args_changed", "elapsed", "index", "state", "requests")
+    __slots__ = ("ok", "value", "err", "exc", "entropy", "args_changed", "elapsed", "index", "state", "requests", "type_note")
 
 
 def call_impl(fn, args, stream="plain", replay_entropy=None, kwargs=None):
@@ -285,11 +317,36 @@ def call_impl(fn, args, stream="plain", replay_entropy=None, kwargs=None):
     finally:
         ENT.replay = None
     r.elapsed = time.perf_counter() - t0
+    if not r.ok and r.exc is not None:
+        if any(r.exc is e for e in _EXC_RING):
+            _SHARED_EXC.append(f"{fn if isinstance(fn, str) else getattr(fn, '__name__', 'call')} raised the very same exception object as an earlier call "
+                               f"({type(r.exc).__name__}: a shared instance accumulates tracebacks and keeps the earlier calls' arguments reachable)")
+        _EXC_RING.append(r.exc)
+        if len(_EXC_RING) > 40:
+            del _EXC_RING[0]
     r.entropy = b"".join(ENT.log)
     r.requests = [len(x) for x in ENT.log]
     ENT.log = []
     after = [snapshot(a) for a in args]
     r.args_changed = before != after
+    # the documented result type, exactly (a subclass, a bytearray or a view where `bytes` is documented behaves differently under
+    # hashing, pickling, `is`-caching and in-place operators although it compares equal); judged for plain `bytes` / `str` arguments only
+    r.type_note = None
+    if r.ok and isinstance(fn, str) and fn in _PINNED_RETURNS and not any(isinstance(a, (bytearray, memoryview)) for a in args):
+        simple = {"bytes": bytes, "str": str, "int": int, "bool": bool}
+        doc = _PINNED_RETURNS[fn]
+        want_t = simple.get(doc)
+        if want_t is not None and type(r.value) is not want_t:
+            r.type_note = f"{fn} returned a {type(r.value).__name__}, documented: {doc}"
+        m_ = re.fullmatch(r"(?:_typing\.)?Tuple\[(.*)\]", doc)
+        if m_:
+            parts = [x.strip() for x in m_.group(1).split(",")]
+            if type(r.value) is not tuple or len(r.value) != len(parts):
+                r.type_note = f"{fn} returned {type(r.value).__name__}, documented: {doc}"
+            else:
+                for part, v_ in zip(parts, r.value):
+                    if part in simple and type(v_) is not simple[part]:
+                        r.type_note = f"{fn} returned a tuple holding a {type(v_).__name__} where {part} is documented ({doc})"
     if isinstance(fn, str) and not kwargs and replay_entropy is None and not r.args_changed:
         _opt_record(fn, args, stream, r)
     return r
@@ -349,6 +406,10 @@ _CALLNO = [0]
 _SIGS = {}
 
 
+try:
+    _PINNED_RETURNS = json.load(open(os.path.join(os.path.dirname(os.path.abspath(__file__)), "api_returns.json")))
+except OSError:
+    _PINNED_RETURNS = {}
 try:
     _PINNED_SIGS = json.load(open(os.path.join(os.path.dirname(os.path.abspath(__file__)), "api_signatures.json")))
 except OSError:
@@ -700,6 +761,11 @@ class Case:
         self.calls.append({"fn": fn, "args": toks, "entropy": r.entropy.hex(), "stream": stream})
         if r.args_changed:
             self.impl_fail.append(f"{fn} modified its arguments")
+        if getattr(r, "type_note", None):
+            self.impl_fail.append(r.type_note)
+        if _SHARED_EXC:
+            self.impl_fail.append(_SHARED_EXC.pop())
+            del _SHARED_EXC[:]
         line = "\t".join([op or fn.split(".")[-1]] + toks + ([enc_b(r.entropy)] if with_entropy else []))
         self.lines.append(line)
         self.expect.append(canon_impl(r, tok) if compare else None)
@@ -840,48 +906,102 @@ def recheck_sample(cases, rng, limit=600):
     return n
 
 
+CHILD_CONFIGS = [
+    # (label, interpreter flags, environment, what it strips or escalates)
+    ("python -OO", ["-OO"], {"PYTHONOPTIMIZE": "2"}, "assert statements and `if __debug__` blocks are compiled away, docstrings are None"),
+    ("python -bb, warnings as errors", ["-bb"], {"VERIF_CHILD_WARNINGS": "error"},
+     "bytes / str comparisons and every warning are errors - except the cryptography package's own CryptographyDeprecationWarning, which the unchanged library triggers"),
+    ("python -X dev -X utf8, another hash seed, C locale, reverse import order, shallow stack", ["-X", "dev", "-X", "utf8"],
+     {"PYTHONHASHSEED": "4242", "LC_ALL": "C", "LANG": "C", "TZ": "Pacific/Kiritimati", "VERIF_CHILD_IMPORTS": "reverse", "VERIF_CHILD_STACK": "70"},
+     "development mode, UTF-8 mode, a fixed hash seed unlike the parent's, a numeric locale that groups digits (built with localedef), an unusual time zone, "
+     "`psec.tr31` imported before the modules it uses, `from psec import *`, the helper modules reloaded in place, and only seventy frames of stack left "
+     "for each call (the unchanged library needs fewer than twenty)"),
+]
+
+
 def optimised_recheck(limit=4000):
-    """The calls kept by `_opt_record` (up to forty per public function, with the operating-system entropy each one drew) are
-    repeated in a child interpreter started with `-O` - assert statements and `if __debug__` blocks are compiled away there:
-    the library must not do any of its work inside an assert. Same outcome as in this process, call by call (randomised
-    calls under the recorded entropy). Returns a Case carrying the failures, or None when there was nothing to repeat."""
+    """The calls kept by `_opt_record` (per public function and outcome class, with the operating-system entropy each one drew) are
+    repeated in child interpreters started in other modes (`CHILD_CONFIGS`): with asserts stripped; with bytes / str comparisons and
+    warnings escalated to errors; in development / UTF-8 mode under another hash seed, locale, time zone and import order.
+    The library must give the same outcome, call by call (randomised calls under the recorded entropy), in every one of
+    them. Returns a Case carrying the failures, or None when there was nothing to repeat."""
     import pickle
     import tempfile
     pool = OPT_POOL[:limit]
     if not pool:
         return None
-    c = Case("repeated-under-python-O", {"calls": len(pool), "functions": len({x[0] for x in pool})})
-    c.key = "python-O"
+    c = Case("repeated-in-other-interpreter-modes", {"calls": len(pool), "functions": len({x[0] for x in pool}), "modes": [x[0] for x in CHILD_CONFIGS]})
+    c.key = "child-interpreters"
+    items = []
+    for fn, args, stream, entropy, outcome in pool:
+        try:
+            pickle.dumps(args)
+            items.append((fn, args, stream, entropy, outcome))
+        except Exception:  # noqa: BLE001  (an argument that cannot be pickled: not repeated)
+            pass
+    here = os.path.dirname(os.path.abspath(__file__))
+    procs = []
     with tempfile.TemporaryDirectory() as td:
-        inp, outp = os.path.join(td, "in.pkl"), os.path.join(td, "out.pkl")
-        items = []
-        for fn, args, stream, entropy, outcome in pool:
-            try:
-                pickle.dumps(args)
-                items.append((fn, args, stream, entropy, outcome))
-            except Exception:  # noqa: BLE001  (an argument that cannot be pickled: not repeated)
-                pass
+        # a throw-away numeric locale that groups digits (built with localedef when the system has none): LOCPATH points at it
+        locenv = {}
+        try:
+            with open(os.path.join(td, "ascii.cm"), "w") as fh:
+                fh.write("<code_set_name> ANSI_X3.4-1968\n<comment_char> %\n<escape_char> /\nCHARMAP\n")
+                for i in range(128):
+                    fh.write("<U%04X>     /x%02x         C%d\n" % (i, i, i))
+                fh.write("END CHARMAP\n")
+            with open(os.path.join(td, "grp.src"), "w") as fh:
+                fh.write('LC_NUMERIC\ndecimal_point "<U002C>"\nthousands_sep "<U002E>"\ngrouping 3;3\nEND LC_NUMERIC\n')
+            subprocess.run(["localedef", "-c", "-f", os.path.join(td, "ascii.cm"), "-i", os.path.join(td, "grp.src"), os.path.join(td, "xx_GR")],
+                           stdout=subprocess.DEVNULL, stderr=subprocess.DEVNULL, timeout=60)
+            if os.path.isdir(os.path.join(td, "xx_GR")):
+                locenv = {"LOCPATH": td, "VERIF_CHILD_LOCALE": "xx_GR"}
+        except (OSError, subprocess.SubprocessError):
+            pass
+        inp = os.path.join(td, "in.pkl")
         pickle.dump([(fn, args, stream, entropy) for fn, args, stream, entropy, _ in items], open(inp, "wb"))
-        env = dict(os.environ, PSEC_REPO=os.path.abspath(REPO), PYTHONOPTIMIZE="1")
-        p = subprocess.run([sys.executable, "-O", os.path.join(os.path.dirname(os.path.abspath(__file__)), "optchild.py"), inp, outp],
-                           cwd=os.path.dirname(os.path.abspath(__file__)), env=env, capture_output=True, text=True, timeout=900)
-        if p.returncode != 0 or not os.path.exists(outp):
-            raise InfraError("the -O child interpreter failed: " + (p.stderr or p.stdout)[-500:])
-        res = pickle.load(open(outp, "rb"))
-    if res["asserts_active"]:
-        raise InfraError("the child interpreter did not run with asserts stripped")
-    bad = 0
-    for (fn, args, stream, entropy, want), got in zip(items, res["outcomes"]):
-        if got != want:
-            bad += 1
-            if bad <= 5:
-                c.impl_fail.append(f"{fn}: under `python -O` (asserts stripped) the same call returned `{got[:120]}`, `{want[:120]}` in a default interpreter")
-                try:
-                    c.calls.append({"fn": fn, "args": [enc(a) for a in args], "entropy": entropy.hex(), "stream": stream, "interpreter": "python -O"})
-                except TypeError:
-                    pass
-    c.desc["differing"] = bad
+        for k, (label, flags, envx, _) in enumerate(CHILD_CONFIGS):
+            outp = os.path.join(td, f"out{k}.pkl")
+            env = dict(os.environ, PSEC_REPO=os.path.abspath(REPO))
+            env.pop("PYTHONOPTIMIZE", None)
+            env.update(envx)
+            if "VERIF_CHILD_IMPORTS" in envx:
+                env.update(locenv)
+                env.pop("LC_ALL", None) if locenv else None
+            procs.append((label, outp, subprocess.Popen([sys.executable] + flags + [os.path.join(here, "optchild.py"), inp, outp], cwd=here, env=env,
+                                                        stdout=subprocess.PIPE, stderr=subprocess.PIPE, text=True)))
+        results = []
+        for label, outp, p in procs:
+            try:
+                so, se = p.communicate(timeout=900)
+            except subprocess.TimeoutExpired:
+                p.kill()
+                raise InfraError(f"the child interpreter ({label}) timed out")
+            if p.returncode != 0 or not os.path.exists(outp):
+                # a child that cannot even start the harness is reported as the implementation's failure only if importing psec is what broke
+                tb_files = re.findall(r'File "([^"]+)", line \d+', se or "")
+                if tb_files and os.path.realpath(tb_files[-1]).startswith(os.path.realpath(REPO) + os.sep):
+                    c.impl_fail.append(f"under `{label}` the library cannot be imported or used at all: {(se or so).strip().splitlines()[-1][:200]} (raised in {os.path.relpath(tb_files[-1], os.path.realpath(REPO))})")
+                    continue
+                raise InfraError(f"the child interpreter ({label}) failed: " + (se or so)[-500:])
+            results.append((label, pickle.load(open(outp, "rb"))))
+    for label, res in results:
+        if label == "python -OO" and res["asserts_active"]:
+            raise InfraError("the -O child interpreter did not run with asserts stripped")
+        bad = 0
+        for (fn, args, stream, entropy, want), got in zip(items, res["outcomes"]):
+            if got != want:
+                bad += 1
+                if bad <= 4:
+                    c.impl_fail.append(f"{fn}: under `{label}` the same call returned `{got[:120]}`, `{want[:120]}` in a default interpreter")
+                    try:
+                        c.calls.append({"fn": fn, "args": [enc(a) for a in args], "entropy": entropy.hex(), "stream": stream, "interpreter": label})
+                    except TypeError:
+                        pass
+        c.desc.setdefault("differing", {})[label] = bad
     del OPT_POOL[:]
+    _OPT_SLOTS.clear()
+    _OPT_COUNT.clear()
     return c
 
 
